@@ -94,36 +94,42 @@ TOOL_TEXT_CLASSES = ["one", "pre", "post", "two", "two", "three", "array", "nest
 
 
 def tool_text(rng, model):
+    """-> (class, text, bounds): bounds = character positions where one part (text / call / separator) ends and the next begins"""
     key = "arguments" if model == "tools" else "parameters"
     other = "parameters" if model == "tools" else "arguments"
     k = rng.choice(TOOL_TEXT_CLASSES)
     c = lambda: call_json(rng, key)
+    txt = lambda a, b: rnd_text(rng, rng.randint(a, b))
     if k == "one":
-        t = c()
+        parts = [c()]
     elif k == "pre":
-        t = rnd_text(rng, rng.randint(1, 3)) + c()
+        parts = [txt(1, 3), c()]
     elif k == "post":
-        t = c() + rnd_text(rng, rng.randint(1, 3))
+        parts = [c(), txt(1, 3)]
     elif k == "prepost":
-        t = rnd_text(rng, rng.randint(1, 2)) + c() + rnd_text(rng, rng.randint(1, 2))
+        parts = [txt(1, 2), c(), txt(1, 2)]
     elif k == "two":
-        t = c() + rng.choice(SEPS) + c()
+        parts = [c(), rng.choice(SEPS), c()]
     elif k == "three":
-        t = c() + rng.choice(SEPS) + c() + rng.choice(SEPS) + c()
+        parts = [c(), rng.choice(SEPS), c(), rng.choice(SEPS), c()]
     elif k == "array":
-        t = "[" + c() + "," + c() + "]"
+        parts = ["[", c(), ",", c(), "]"]
     elif k == "nested":
-        t = '{"tool_calls":[' + c() + "," + c() + "]}"
+        parts = ['{"tool_calls":[', c(), ",", c(), "]}"]
     elif k == "nomatch":
-        t = '{"foo":1}' + rng.choice(SEPS) + c()
+        parts = ['{"foo":1}', rng.choice(SEPS), c()]
     elif k == "none":
-        t = rng.choice([rnd_text(rng, rng.randint(0, 4)), '{"x":{"y":1}}', '{"name":"a"}', "[1,2]", '"str"', "null true 12"])
+        parts = [rng.choice([txt(0, 4), '{"x":{"y":1}}', '{"name":"a"}', "[1,2]", '"str"', "null true 12"])]
     elif k == "trunc":
         t = c()
-        t = t[: rng.randint(1, len(t) - 1)]
+        parts = [t[: rng.randint(1, len(t) - 1)]]
     else:
-        t = call_json(rng, other)
-    return k, t
+        parts = [call_json(rng, other)]
+    bounds, pos = [], 0
+    for part in parts[:-1]:
+        pos += len(part)
+        bounds.append(pos)
+    return k, "".join(parts), bounds
 
 
 def split_text(text, cuts):
@@ -136,9 +142,14 @@ def split_text(text, cuts):
     return out
 
 
-def gen_splits(rng, text, k, tools):
+def gen_splits(rng, text, k, tools, bounds=()):
     n = len(text)
     res = [split_text(text, [])]
+    if bounds:
+        # every part (each call, each separator) in a chunk of its own; and each call together with what follows it
+        res.append(split_text(text, sorted(set(bounds))))
+        if len(bounds) >= 2 and k > 3:
+            res.append(split_text(text, sorted(set(bounds[1::2]))))
     if 1 < n <= 48:
         res.append(split_text(text, range(1, n)))
     while len(res) < k and n > 1:
@@ -175,7 +186,7 @@ def gen_case(rng, nsplits):
     if kind == "generate":
         c["model"] = rng.choice(["plain", "tools"])
         c["raw"] = rng.random() < 0.3
-        tclass, text = "text", rnd_text(rng, rng.randint(0, 6))
+        tclass, text, bounds = "text", rnd_text(rng, rng.randint(0, 6)), []
         if endk == "done" and not c["raw"] and rng.random() < 0.15:
             c["tokfail"] = True
     else:
@@ -183,19 +194,19 @@ def gen_case(rng, nsplits):
         if r < 0.25:
             c["model"], c["tools"] = rng.choice(["plain", "tools"]), False
             if rng.random() < 0.5:
-                tclass, text = "text", rnd_text(rng, rng.randint(0, 6))
+                tclass, text, bounds = "text", rnd_text(rng, rng.randint(0, 6)), []
             else:
-                tclass, text = tool_text(rng, "tools")
+                tclass, text, bounds = tool_text(rng, "tools")
         else:
             c["model"], c["tools"] = rng.choice(["tools", "tools", "tools2"]), True
-            tclass, text = tool_text(rng, c["model"])
+            tclass, text, bounds = tool_text(rng, c["model"])
     if c["tools"] and endk == "done-content":
         endk = "done"   # the final runner response carries no content (llm/server.go Completion); off-contract only without tools
     c["end"] = gen_end(rng, endk)
     if c["tools"] and c["end"]["reason"] == 2:
         c["end"]["reason"] = 0
     c["text"] = text
-    c["splits"] = [[hx(p) for p in s] for s in gen_splits(rng, text, nsplits, c["tools"])]
+    c["splits"] = [[hx(p) for p in s] for s in gen_splits(rng, text, nsplits, c["tools"], bounds if c["tools"] else ())]
     c["klass"] = "%s/%s%s/%s/%s" % (kind, c["model"], "+tools" if c["tools"] else "", tclass, endk + ("+tokfail" if c["tokfail"] else ""))
     return c
 
@@ -209,6 +220,31 @@ def corpus_cases():
             out.append(c)
         except Exception:
             pass
+    return out
+
+
+def cut_cases(rng, n):
+    """transport faults: the connection is closed after k complete lines (+ part of the next one), the end of the body never arrives"""
+    out = []
+
+    def all_cuts(lines, klass, framings=("chunked", "length")):
+        for fr in framings:
+            for k in range(len(lines) + 1):
+                extras = [0] if k == len(lines) else [0, -1, 1, lines[k]["len"] // 2, lines[k]["len"] - 1]
+                for m in extras:
+                    out.append({"op": "client", "status": 200, "lines": lines, "cut": {"lines": k, "extra": m, "framing": fr}, "klass": klass})
+    all_cuts([{"kind": "msg", "len": 64}, {"kind": "msg", "len": 70}, {"kind": "done", "len": 80}], "client-cut/every-point")
+    all_cuts([{"kind": "msg", "len": 64}, {"kind": "error", "len": 30}], "client-cut/every-point", ("chunked",))
+    all_cuts([{"kind": "done", "len": 80}], "client-cut/every-point", ("chunked",))
+    for _ in range(n):
+        lines = [{"kind": rng.choice(["msg"] * 8 + ["garbage"]), "len": rng.choice([64, 65, 100, 4000])} for _ in range(rng.randint(0, 4))]
+        lines.append({"kind": rng.choice(["done", "done", "error"]), "len": rng.choice([70, 90, 2000])})
+        if rng.random() < 0.1:
+            lines[rng.randrange(len(lines))]["len"] = rng.choice([MAXBUF - 1, MAXBUF, MAXBUF + 9])
+        k = rng.randint(0, len(lines))
+        m = 0 if k == len(lines) else rng.choice([0, 0, -1, -1, rng.randint(1, lines[k]["len"] - 1)])
+        out.append({"op": "client", "status": rng.choice([200, 200, 200, 200, 500]), "lines": lines,
+                    "cut": {"lines": k, "extra": m, "framing": rng.choice(["chunked", "chunked", "length"])}, "klass": "client-cut/random"})
     return out
 
 
@@ -280,6 +316,17 @@ def terminals(run):
     return sum(t), bool(t) and t[-1]
 
 
+def reassemble(recs):
+    """what an OpenAI client makes of the tool_calls deltas of a stream: deltas with the same index are one call whose
+    name and arguments are the concatenation of the deltas' (hex strings concatenate like the bytes)"""
+    d = {}
+    for r in recs:
+        for c in (r.get("calls") or []):
+            i = c["index"]
+            d[i] = (d[i][0] + c["name"], d[i][1] + c["args"]) if i in d else (c["name"], c["args"])
+    return [d[i] for i in sorted(d)]
+
+
 def openai_result(run):
     """('ok', text, calls, finish, usage) | ('fail', msg) | ('unfinished', text, calls)"""
     recs = run["recs"]
@@ -293,7 +340,7 @@ def openai_result(run):
     acc, fin, usage = [], None, None
     for r in recs:
         if r["kind"] == "marker":
-            return ("ok", cat(acc), calls_of(acc), fin, usage)
+            return ("ok", cat(acc), reassemble(acc), fin, usage)
         if r["kind"] == "error":
             return ("fail", r["err"])
         if r["kind"] == "usage":
@@ -304,7 +351,7 @@ def openai_result(run):
         acc.append(r)
         if r["hasfin"]:
             fin = r["reason"]
-    return ("unfinished", cat(acc), calls_of(acc))
+    return ("unfinished", cat(acc), reassemble(acc))
 
 
 def expected_openai(nat, with_usage):
@@ -454,7 +501,9 @@ def monitor_case(c, obs, oracle, viol):
                 got = got[:2] + ([],) + got[3:]
             if got != want:
                 viol(dict(base, **{"class": "openai-differ", "field": first_diff(got, want, OAI_FIELDS), "mode": mode}),
-                     "/v1 response (%s) does not carry the native result: %s" % (mode, first_diff(got, want, OAI_FIELDS)),
+                     "/v1 response (%s) does not carry the native result: %s%s" % (mode, first_diff(got, want, OAI_FIELDS),
+                         " (streamed tool_calls deltas merged by index, the way OpenAI clients rebuild them, against the native calls)"
+                         if mode != "v1ns" and first_diff(got, want, OAI_FIELDS) == "calls" else ""),
                      {"split": si, "mode": mode, "openai": got, "native": want, "run": r})
         # the runner saw the same request in every mode (prompt everywhere; format and stop within one endpoint family:
         # /v1/completions has no format field, so the harness cannot send one there)
@@ -475,10 +524,21 @@ def monitor_client(c, o, viol):
         return
     ndone = sum(1 for g in o["got"] if g["done"])
     n = ndone + (1 if o["haserr"] else 0)
+    cut = c.get("cut")
+    sig = {"class": "client-terminal", "count": min(n, 2), "toolong": any(l["len"] >= MAXBUF for l in lines), "transport": bool(cut)}
+    what = "api.Client.stream over a stream with exactly one terminal line%s delivered %d final messages and %s" % (
+        " cut by a transport fault (%s)" % json.dumps(cut) if cut else "", ndone, "an error" if o["haserr"] else "no error")
+    if cut:
+        k, m = cut["lines"], cut["extra"]
+        complete = (k == len(lines) and m == 0) or (k == len(lines) - 1 and m == -1)   # the whole content arrived
+        if complete and lines[-1]["kind"] == "done" and lines[-1]["len"] < MAXBUF:
+            # only the newline / the end-of-body marker was lost: the final message must have been delivered
+            # (the client additionally reports the transport error; see C17_client_transport_fault)
+            if ndone != 1:
+                viol(sig, what, {"case": c, "impl": o})
+            return
     if n != 1:
-        viol({"class": "client-terminal", "count": min(n, 2), "toolong": any(l["len"] >= MAXBUF for l in lines)},
-             "api.Client.stream over a stream with exactly one terminal line delivered %d final messages and %s" % (ndone, "an error" if o["haserr"] else "no error"),
-             {"case": c, "impl": o})
+        viol(sig, what, {"case": c, "impl": o})
 
 
 # ------------------------------------------------------------------------------------------------ rendering into Coq
@@ -614,6 +674,8 @@ def render_split(c, obs, si, oracle):
             elif mode in ("v1st", "v1stu"):
                 x = cq_recs(r["recs"], cq_sse, "sse")
                 term = x and "chk_v1chat_stream %s t %s o %s" % (cq_bool(mode == "v1stu"), tl, x)
+                if x and mode == "v1st":
+                    out.append(("v1st-reassemble", "chk_v1chat_reassemble t %s o %s" % (tl, x)))
             elif mode == "v1ns":
                 x = cq_v1body(r)
                 term = x and "chk_v1chat_nonstream t %s o %s" % (tl, x)
@@ -636,6 +698,8 @@ def client_code(o):
         return 2
     if "token too long" in e:
         return 3
+    if "unexpected EOF" in e and not e.startswith("unmarshal"):
+        return 5
     if e and set(e) == {"a"}:
         return 1
     return 4
@@ -649,7 +713,17 @@ def render_client(c, o):
             return "(LErr %s [97]%%N)" % cq_N(l["len"])
         return "(LGarbage %s)" % cq_N(l["len"])
     got = cq_list(["(LMsg %s %s)" % (cq_N(g["len"]), cq_bool(g["done"])) for g in o["got"]], "line")
-    return "chk_client_lines %s %s %s %s %s" % (cq_N(MAXBUF), cq_Z(c["status"]), cq_list([line(l) for l in c["lines"]], "line"), got, cq_N(client_code(o)))
+    cut = c.get("cut")
+    if not cut:
+        return "chk_client_lines %s %s %s %s %s" % (cq_N(MAXBUF), cq_Z(c["status"]), cq_list([line(l) for l in c["lines"]], "line"), got, cq_N(client_code(o)))
+    k, m = cut["lines"], cut["extra"]
+    if k >= len(c["lines"]) or m == 0:
+        cp = "CutBetween"
+    elif m < 0 or m >= c["lines"][k]["len"]:
+        cp = "(CutBeforeNewline %s)" % line(c["lines"][k])
+    else:
+        cp = "(CutInside %s)" % cq_N(m)
+    return "chk_client_cut %s %s %s %s %s %s" % (cq_N(MAXBUF), cq_Z(c["status"]), cq_list([line(l) for l in c["lines"][:k]], "line"), cp, got, cq_N(client_code(o)))
 
 
 # ------------------------------------------------------------------------------------------------ shrinking
@@ -712,8 +786,10 @@ def run(ctx):
                 "(random text with multi-byte characters and JSON punctuation; for tools: one/two/three calls, array, nested, surrounded by text, non-matching, "
                 "truncated, wrong key) x ending (final response with reason and counts | error | silent return | final response carrying content | tokenizer failure) "
                 "x %d splits at character boundaries (whole, per character, random, cuts planted a few characters after a closing brace), each through 7 modes "
-                "(native stream/non-stream, api.Client stream/non-stream, /v1 stream, /v1 stream+usage, /v1 non-stream); client cases: scripted response lines with lengths "
-                "around the 512000 byte scanner buffer. non-trivial = at least two chunks and the runner script reached the handler; distinct = canonical JSON of the case"
+                "(native stream/non-stream, api.Client stream/non-stream, /v1 stream, /v1 stream+usage, /v1 non-stream; /v1 tool_calls deltas are merged by index before "
+                "comparing); with tools one split puts every call and every separator in a chunk of its own; client cases: scripted response lines with lengths "
+                "around the 512000 byte scanner buffer, and transport faults (connection closed after k complete lines, inside a line, before its newline, "
+                "before the end-of-body marker; chunked and Content-Length framing; every cut point of three fixed streams + random). non-trivial = at least two chunks and the runner script reached the handler; distinct = canonical JSON of the case"
                 % (3 if quick else 6))
     ctx.trusted = ["Coq 8.16.1 kernel + vm_compute", "hand-written model coq/Stream/Model.v tied to the code by this differential run only",
                    "encoding/json, net/http, gin, bufio.Scanner (records are compared after decoding; the scanner's buffer rule is modelled as len+1 <= max)",
@@ -782,6 +858,7 @@ def _run(ctx, h, only_cases=None):
         cases = corpus_cases() + big_cases() + exhaustive_cases(quick)
         cases += [gen_case(rng, nsplits) for _ in range(380 if quick else 2500)]
         cases += gen_client_cases(rng, 60 if quick else 1000)
+        cases += cut_cases(rng, 40 if quick else 1500)
     viols = []
     items, meta = [], []
     ctx.log("%d cases generated" % len(cases))
@@ -862,7 +939,7 @@ def _run(ctx, h, only_cases=None):
                 continue
             for _ in range(12):
                 d = dict(c)
-                d["splits"] = [[hx(p) for p in s] for s in gen_splits(rng, c["text"], 6, bool(c.get("tools")))]
+                d["splits"] = [[hx(p) for p in s] for s in gen_splits(rng, c["text"], 6, bool(c.get("tools")))]  # no bounds known here
                 o = h.ask({k: v for k, v in d.items() if k not in ("klass", "text")})
                 monitor_case(d, o, oracle, lambda sig, what, detail, d=d: found.append((d, sig, what, detail)))
                 if found:
